@@ -13,5 +13,8 @@ CONSTANTS
   MaxOps = 4
   Record = TRUE
   Depth = 4
+  ExtBond = 1
+  ExtDeleg = 14
+  PoolInit = 1
   Impl = "required"
 INVARIANT Emit
